@@ -252,7 +252,8 @@ where
     pub fn expected_value(&self) -> NotNan<f64> {
         self.joint_probs
             .iter()
-            .map(|(event, prob)| *event * NotNan::new(**prob).unwrap())
+            // weight every event with its posterior probability
+            .map(|(event, prob)| *event * NotNan::new((prob - self.marginal).exp()).unwrap())
             .fold(NotNan::default(), |s, e| s + e)
     }
 }
